@@ -58,6 +58,7 @@ class Ctx:
             (isinstance(x, str) and x in ("Dispatcher", "ChargingFleetManager"))
             or (isinstance(x, dict) and "hostile" in x and x["hostile"].get("kinds") and "DispatchTrip" not in x["hostile"]["kinds"])
             or (isinstance(x, dict) and "benign_queue" in x)
+            or (isinstance(x, dict) and "resend" in x)
             for x in (case.get("controller") or {}).get("stack", ["Dispatcher", "ChargingFleetManager"])
         )
 
